@@ -23,4 +23,3 @@ func GenCfg(t *rapid.T) Cfg {
 	}
 	return c
 }
-
